@@ -19,7 +19,7 @@ RULE = ("structural part: every symmetric 0/1 matrix on n<=4 atoms x every eleme
         "and unpaired electrons are zero, support equals connectivity.  distinct = (molecule, atom order) calls")
 ASSUMPTIONS = ["standard valences: H1 C4 N3 O2 F/Cl/Br/I 1 S{2,6} P{3,5}; the Kekule structure itself is not compared",
                "'all molecules' is cut at 3 (quick) / 4 (thorough) heavy atoms plus the list"]
-BUDGET = {"quick": 240, "thorough": 1800}
+BUDGET = {"quick": 600, "thorough": 1800}
 
 
 def items(tier, seed):
